@@ -110,6 +110,10 @@ def run(ctx):
     AC.HOOKS[:] = [_hook]
     AC.FIELD_SEEN.clear()
     rng = ctx.rng
+    from rv.props import concurrent_jobs
+
+    concurrent_jobs.run_some(ctx, "C01", quick=3, thorough=12)        # the same calls from a thread pool (rv/core/threads.py)
+    ctx.must_monitors.append("concurrent_calls")
     ctx.rule = ("(collection type, graph seed, generator knobs, audio_dir mode); object graphs over shared pools of users/tags/recordings/clips/sound events/sequences; "
                 "non-trivial = at least one nested object and at least one object shared between parents; distinct = distinct (collection, seed, knobs)")
     ctx.assumptions += ["simple-label terms; feature labels distinct within a list; finite numbers; list members distinct within a collection's top-level lists",
